@@ -314,7 +314,7 @@ fn validate_fields(input: &Struct, data_type_attrs: &DataTypeAttrs, data_type_at
         }
     }
 
-    for child_attr in input.fields.iter().flat_map(|x| &x.attrs.child_attrs) {
+    for (field, child_attr) in input.fields.iter().flat_map(|x| x.attrs.child_attrs.iter().map(move |c| (x, c))) {
         match &child_attr.container_ty {
             Some(tp) => {
                 if !type_paths.contains(tp) {
@@ -324,7 +324,8 @@ fn validate_fields(input: &Struct, data_type_attrs: &DataTypeAttrs, data_type_at
                     check_child_errors(child_attr, data_type_attrs, tp, errors)
                 }
             },
-            None => for tp in into_type_paths.iter() {
+            // a counterpart with its own dedicated #[child(Type| ...)] on this member does not use the default one
+            None => for tp in into_type_paths.iter().filter(|tp| !field.attrs.child_attrs.iter().any(|x| x.container_ty.as_ref() == Some(**tp))) {
                 check_child_errors(child_attr, data_type_attrs, tp, errors)
             },
         }
